@@ -59,7 +59,7 @@ def oracle_expect(cases, impl, ctx):
 PROPS["C06"] = dict(
     oracle=oracle_expect,
     gen=lambda rng, n, tier: F.bytes_mode(rng, n) + F.c06_big(rng),
-    budget=(3000, 30000),
+    budget=(9000, 60000),
     absolute=True,
     in_domain=always,
     nontrivial=lambda c, m: m[0] == "0" and len(m[1]) > 0,
@@ -141,7 +141,7 @@ def oracle_c15(cases, impl, ctx):
 
 PROPS["C09"] = dict(
     gen=lambda rng, n, tier: F.c09(rng, n),
-    budget=(3000, 30000),
+    budget=(9000, 60000),
     absolute=False,
     in_domain=always,
     nontrivial=lambda c, m: c.tags.get("role") == "mirrored" and m[0] == "0",
@@ -158,7 +158,7 @@ PROPS["C09"] = dict(
 
 PROPS["C10"] = dict(
     gen=lambda rng, n, tier: F.c10(rng, n) + F.c10_big(rng),
-    budget=(3000, 30000),
+    budget=(9000, 60000),
     absolute=False,
     in_domain=always,
     nontrivial=lambda c, m: c.tags.get("role") == "AB" and len(m[1]) > 0,
@@ -175,7 +175,7 @@ PROPS["C10"] = dict(
 
 PROPS["C13"] = dict(
     gen=lambda rng, n, tier: F.c13(rng, n),
-    budget=(4000, 40000),
+    budget=(12000, 80000),
     absolute=True,
     in_domain=always,
     nontrivial=lambda c, m: True,
@@ -193,7 +193,7 @@ PROPS["C13"] = dict(
 
 PROPS["C15"] = dict(
     gen=lambda rng, n, tier: F.c15(rng, (2 * n) // 3) + F.c15_varied(rng, n // 3),
-    budget=(3000, 30000),
+    budget=(9000, 60000),
     absolute=True,
     in_domain=always,
     nontrivial=lambda c, m: c.tags.get("role") == "complement",
@@ -222,7 +222,7 @@ KF_CLASSES = {"lines_blank_input": kf_lines_blank_input}
 
 PROPS["C01"] = dict(
     gen=lambda rng, n, tier: F.fields(rng, n) + F.small_scope(rng, maxlen=(4 if tier == "quick" else 6), sample=(20 if tier == "quick" else None)),
-    budget=(5000, 60000),
+    budget=(15000, 100000),
     absolute=True,
     in_domain=always,
     nontrivial=lambda c, m: m[0] == "0" and len(m[1]) > 1,
@@ -377,7 +377,7 @@ def reg(pid, **kw):
     PROPS[pid] = kw
 
 
-reg("C02", gen=lambda rng, n, tier: F.c02(rng, n) + F.c02_big(rng), budget=(4000, 40000), absolute=False,
+reg("C02", gen=lambda rng, n, tier: F.c02(rng, n) + F.c02_big(rng), budget=(12000, 80000), absolute=False,
     oracle=lambda cases, impl, ctx: tuple(map(lambda a, b: a + b,
         oracle_same("general", "fast", "the fast lane and the general path disagree on the same options and input")(cases, impl, ctx),
         oracle_same("general", "cli", "the binary (fast lane, real 64 KiB reader) and the general path disagree")(cases, impl, ctx))),
@@ -390,7 +390,7 @@ reg("C02", gen=lambda rng, n, tier: F.c02(rng, n) + F.c02_big(rng), budget=(4000
               "C02_early_stop_never_changes_a_range", "C02_parser_output_qualifies"], release=True,
     assumptions=["delimiter byte < 128 (a 1-byte -d from the command line is ASCII)", "records with < 2^31 fields"])
 
-reg("C03", gen=lambda rng, n, tier: F.c03(rng, n) + F.c03_big(rng), budget=(3000, 30000), absolute=False,
+reg("C03", gen=lambda rng, n, tier: F.c03(rng, n) + F.c03_big(rng), budget=(9000, 60000), absolute=False,
     oracle=oracle_all_same("plain", "-M and the same invocation without -M disagree"),
     nontrivial=lambda c, m: c.tags.get("role") == "stream" and m[0] == "0" and len(m[1]) > 1,
     rule="-M-compatible option sets (1-byte delimiter, strictly ascending bounds incl. one trailing open range, "
@@ -400,7 +400,7 @@ reg("C03", gen=lambda rng, n, tier: F.c03(rng, n) + F.c03_big(rng), budget=(3000
     theorems=[], assumptions=["ranges that straddle the end of a record are excluded by the statement"])
 
 reg("C04", gen=lambda rng, n, tier: F.c04(rng, n, exhaustive_upto=(7 if tier == "quick" else 10)) + F.c04_big(rng),
-    budget=(3000, 30000), absolute=False, oracle=oracle_c04,
+    budget=(9000, 60000), absolute=False, oracle=oracle_c04,
     nontrivial=lambda c, m: len(c.seg) > 1,
     rule="-M on one input under several segmentations: every segmentation of inputs up to 7 bytes (quick; 10 thorough), "
          "byte-at-a-time plus random segmentations beyond, through a BufRead double in-process; the real binary through "
@@ -408,32 +408,32 @@ reg("C04", gen=lambda rng, n, tier: F.c04(rng, n, exhaustive_upto=(7 if tier == 
     theorems=["C04_segmentation_independence", "C04_any_segmentation_equals_single_read",
               "C04_side_condition_always_holds", "C04_stream_items_are_the_parsed_bounds"], assumptions=["a read returns at least one byte unless the input is exhausted"])
 
-reg("C05", gen=lambda rng, n, tier: F.c05(rng, n) + F.c05_big(rng), budget=(3000, 30000), absolute=True,
+reg("C05", gen=lambda rng, n, tier: F.c05(rng, n) + F.c05_big(rng), budget=(9000, 60000), absolute=True,
     oracle=oracle_same("forward", "buffered", "the one-line-at-a-time reader and the whole-input reader disagree on equivalent requests"),
     rule="-l with forward and non-forward bounds lists, --no-join, -z, -m, fallbacks, empty lines, missing final EOL, "
          "invalid UTF-8; plus pairs of equivalent requests (ascending positive vs one index written negatively)",
     theorems=[], assumptions=["format text in -l is outside the statement"])
 
-reg("C07", gen=lambda rng, n, tier: F.c07(rng, n), budget=(3000, 30000), absolute=True,
+reg("C07", gen=lambda rng, n, tier: F.c07(rng, n), budget=(9000, 60000), absolute=True,
     rule="-c on valid UTF-8 records with 1-4 byte scalars, combining marks, ZWJ, characters next to word boundaries, "
          "0/1/many characters per record, bounds incl. negative/open/format text, -z, --json, -m, fallbacks",
     theorems=[], assumptions=["regex's \\b|\\B yields an empty match at every scalar boundary of a valid UTF-8 haystack "
                               "(assumed; exercised by this run)"])
 
-reg("C08", gen=lambda rng, n, tier: F.c08(rng, n) + F.c08_big(rng), budget=(3000, 30000), absolute=True, oracle=oracle_c08,
+reg("C08", gen=lambda rng, n, tier: F.c08(rng, n) + F.c08_big(rng), budget=(9000, 60000), absolute=True, oracle=oracle_c08,
     rule="--json in -f and -c mode on valid UTF-8 with quotes, backslashes, U+0000-1F, U+007F, U+2028, astral "
          "characters; multi-byte delimiters, -g -p -t -s -m -z, fallbacks; every output line is also parsed by "
          "Python's strict json.loads",
     theorems=[], assumptions=["serde_json's escape table as transcribed"])
 
-reg("C11", gen=lambda rng, n, tier: F.c11(rng, n), budget=(3000, 30000), absolute=False, oracle=oracle_c11,
+reg("C11", gen=lambda rng, n, tier: F.c11(rng, n), budget=(9000, 60000), absolute=False, oracle=oracle_c11,
     nontrivial=lambda c, m: c.tags.get("role") == "nul" and m[0] == "0" and len(m[1]) > 1,
     rule="pairs (ARGS, I) / (-z ARGS, swap(I)) over alphabets with LF, NUL and CR for the general path, the fast "
          "lane, -c, -l (both algorithms), --json and -M; option texts contain neither LF nor NUL",
     theorems=[], assumptions=["option texts (delimiter, replacement, fillers, fallbacks) contain neither LF nor NUL"])
 
 reg("C12", gen=lambda rng, n, tier: F.c12(rng, n, exhaustive_len=(3 if tier == "quick" else 4)) + F.small_scope(rng, maxlen=(4 if tier == "quick" else 5), sample=(15 if tier == "quick" else 60)),
-    budget=(3000, 40000), absolute=True, oracle=oracle_c12, release=True,
+    budget=(9000, 60000), absolute=True, oracle=oracle_c12, release=True,
     nontrivial=lambda c, m: True,
     rule="bounded-exhaustive bounds strings over {1,2,-,:,=,{,},comma,a,e-acute} up to length 3 (4 thorough) as "
          "-f/-c/-b/-l, plus argv from the option grammar with adversarial pools (0, +-2^31, 2^31+-1, 46341, huge "
@@ -441,7 +441,7 @@ reg("C12", gen=lambda rng, n, tier: F.c12(rng, n, exhaustive_len=(3 if tier == "
          "stdin; oracle: exit status 0 or 1 within the timeout",
     theorems=[], assumptions=["regexes outside the modelled family are covered by the exit-status oracle only"])
 
-reg("C14", gen=lambda rng, n, tier: F.c14(rng, n) + F.c14_big(rng), budget=(2500, 25000), absolute=False, oracle=oracle_c14,
+reg("C14", gen=lambda rng, n, tier: F.c14(rng, n) + F.c14_big(rng), budget=(6000, 40000), absolute=False, oracle=oracle_c14,
     compare=lambda c: not c.extra,
     nontrivial=lambda c, m: bool(c.extra),
     rule="every mode; read(0) starts failing (EIO) after k bytes, write(1) accepts k bytes then fails (ENOSPC), "
@@ -450,7 +450,7 @@ reg("C14", gen=lambda rng, n, tier: F.c14(rng, n) + F.c14_big(rng), budget=(2500
     theorems=[], assumptions=["SIGPIPE disposition, kernel pipe semantics and EINTR handling of std are runtime facts "
                               "exercised, not proved"])
 
-reg("C18", gen=lambda rng, n, tier: F.c18(rng, n, maxlen=(4 if tier == "quick" else 5)), budget=(4000, 40000),
+reg("C18", gen=lambda rng, n, tier: F.c18(rng, n, maxlen=(4 if tier == "quick" else 5)), budget=(12000, 80000),
     absolute=True, nontrivial=lambda c, m: m[0] == "0",
     rule="every string up to length 4 (5 thorough) over {1,2,0,-,+,:,=,{,},comma,backslash,n,a,space,e-acute} "
          "through UserBoundsList::from_str in-process (accept/reject and the parsed structure compared with the "
@@ -467,7 +467,7 @@ reg("C19", gen=lambda rng, n, tier: F.c19(rng, n, full=(tier == "thorough")), bu
 
 # ------------------------------------------------------------------ C16 / C17
 
-reg("C16", gen=lambda rng, n, tier: F.regex(rng, n), budget=(4000, 40000), absolute=True,
+reg("C16", gen=lambda rng, n, tier: F.regex(rng, n), budget=(12000, 80000), absolute=True,
     compare=lambda c: True,
     rule="-e with regexes of the modelled family (single char, class, alternations of different lengths, '+' runs, "
          "groups, multi-byte literals) x bounds x {-g, -t l|r|b, -p -r R, -r R with $-sequences, -s, -m, -j, --json, "
